@@ -182,6 +182,116 @@ def _resolve_closure_calls(raw):
                 t["resolved_kind"] = "closure"
 
 
+def _mentions_local(x, l):
+    if isinstance(x, dict):
+        if x.get("l") == l and ("p" in x or x.get("k") in ("live", "dead")):
+            return True
+        if x.get("idx") == l and len(x) == 1:
+            return True
+        return any(_mentions_local(v, l) for k, v in x.items() if k != "dbg")
+    if isinstance(x, list):
+        return any(_mentions_local(v, l) for v in x)
+    return False
+
+
+def _succs(t):
+    if t is None:
+        return []
+    out = []
+    for k in ("target", "unwind", "otherwise"):
+        if isinstance(t.get(k), int):
+            out.append(t[k])
+    if t["k"] == "switch":
+        out.extend(b for _, b in t["targets"])
+    return out
+
+
+def thread_jumps(raw):
+    """jump threading: a block that assigns a constant to `x` and jumps to a block that does nothing but switch on `x`
+    jumps to the switch's target for that constant instead (`let ok = a && b; if !ok { .. }` then has the same control
+    flow as `if !a || !b { .. }`).  Returns the number of edges threaded."""
+    blocks = raw["blocks"]
+    n = 0
+    for _ in range(8):
+        progress = False
+        for pi, P in enumerate(blocks):
+            t = P["term"]
+            if t is None or t["k"] != "goto" or P.get("cleanup"):
+                continue
+            J = blocks[t["target"]]
+            jt = J["term"]
+            if jt is None or jt["k"] != "switch" or t["target"] == pi:
+                continue
+            d = jt["discr"].get("copy") or jt["discr"].get("move")
+            if d is None or d["p"]:
+                continue
+            x = d["l"]
+            ok = True
+            for st in J["stmts"]:
+                if st["k"] in ("live", "dead"):
+                    continue
+                if st["k"] == "assign" and not st["place"]["p"] and st["place"]["l"] == x and st["rv"]["k"] == "use":
+                    src = st["rv"]["op"].get("copy") or st["rv"]["op"].get("move")
+                    if src is not None and not src["p"]:
+                        x = src["l"]
+                        continue
+                ok = False
+                break
+            if not ok:
+                continue
+            # last whole assignment to x in P must be a constant
+            val = None
+            for st in P["stmts"]:
+                if st["k"] == "assign" and st["place"]["l"] == x:
+                    val = None
+                    if not st["place"]["p"] and st["rv"]["k"] == "use" and "const" in st["rv"]["op"]:
+                        c = st["rv"]["op"]["const"]
+                        v = c.get("val", c.get("value", c.get("bits")))
+                        if isinstance(v, bool):
+                            v = int(v)
+                        if v is None:
+                            s_ = str(c.get("dbg", ""))
+                            if "const true" in s_ or s_.strip() == "true":
+                                v = 1
+                            elif "const false" in s_ or s_.strip() == "false":
+                                v = 0
+                        val = (v, st) if isinstance(v, int) else None
+            if val is None:
+                continue
+            v, st_def = val
+            tgt = None
+            for tv, tb in jt["targets"]:
+                if tv == v:
+                    tgt = tb
+            if tgt is None:
+                tgt = jt.get("otherwise")
+            if not isinstance(tgt, int):
+                continue
+            P["term"] = dict(t)
+            P["term"]["target"] = tgt
+            P["term"]["dbg"] = "goto -> bb%d (threaded through bb%d)" % (tgt, t["target"])
+            P["term"]["threaded"] = t["target"]
+            # the constant definition is dead if nothing reachable from here reads x
+            seen, stack, live = set(), [tgt], False
+            while stack and not live:
+                b = stack.pop()
+                if b in seen:
+                    continue
+                seen.add(b)
+                B = blocks[b]
+                if any(_mentions_local(s, x) for s in B["stmts"] if s["k"] not in ("live", "dead")) or \
+                        (B["term"] is not None and _mentions_local({k: w for k, w in B["term"].items() if k != "dbg"}, x)):
+                    live = True
+                stack.extend(_succs(B["term"]))
+            if not live:
+                P["stmts"] = [s for s in P["stmts"] if s is not st_def]
+            n += 1
+            progress = True
+        if not progress:
+            break
+    return n
+
+
 def _inline_closure_calls(raws):
     """`let f = |..| ..; f(x)`: a closure literal called directly in the body that creates it is expanded in place"""
     n = 0
@@ -237,6 +347,7 @@ def apply(data, known=None):
         cand[bid] = b
     if not cand:
         report["closure_calls_inlined"] = _inline_closure_calls(raws)
+        report["jumps_threaded"] = sum(thread_jumps(b) for b in raws.values() if b["kind"] in ("fn", "method", "closure"))
         return data, report
 
     def target_of(t):
@@ -299,6 +410,7 @@ def apply(data, known=None):
         if not keep:
             remove.add(c)
     data["bodies"] = [b for b in data["bodies"] if b["id"] not in remove]
+    report["jumps_threaded"] = sum(thread_jumps(b) for b in data["bodies"] if b["kind"] in ("fn", "method", "closure"))
     report["transparent_helpers"].sort()
     report["kept_as_bodies"].sort()
     return data, report
